@@ -34,8 +34,8 @@ func (x Xform3) Build() model3d.Transform {
 	case "vecscale":
 		return &model3d.VecScale{Scale: c3(x.V)}
 	case "matrix":
-		// the library stores matrices column-major
-		m := model3d.Matrix3{x.M[0], x.M[3], x.M[6], x.M[1], x.M[4], x.M[7], x.M[2], x.M[5], x.M[8]}
+		// the library stores matrices row by row (MulColumn: X = m[0]*x + m[1]*y + m[2]*z)
+		m := model3d.Matrix3(x.M)
 		return &model3d.Matrix3Transform{Matrix: &m}
 	case "rotation":
 		return model3d.Rotation(c3(x.V), x.S)
